@@ -193,11 +193,18 @@ def writeEnumEntry (u : Option String) (enc : Encoding) (kv : PyVal × String) :
   | .error e => .error e
   | .ok v => .ok (mkEl u "Enumeration" [("label", kv.2), ("value", v)] [])
 
-/-- `scale` / `offset` attributes of a time type's `<Encoding>`: the degree-1 / degree-0 coefficients of its
-    polynomial default calibrator. -/
+/-- The exponents of a polynomial that `scale` / `offset` can express: `[1]`, or `0` and `1` once each. -/
+def linearShape (cs : List PolyTerm) : Bool :=
+  let es := cs.map (·.exp)
+  es == [1] || es == [0, 1] || es == [1, 0]
+
+/-- `scale` / `offset` attributes of a time type's `<Encoding>`: the degree-1 / degree-0 coefficients of a *linear*
+    polynomial default calibrator (what loading turns the two attributes back into).  Any other default calibrator is
+    written by the data encoding alone (after the `fix:` commit recorded in DESIGN.md §14). -/
 def timeScaleOffset (ne : NumEnc) : LoadM (List (String × String)) :=
   match ne.cals.default with
   | some (.poly cs) =>
+    if !linearShape cs then .ok [] else
     match (match (cs.filter (·.exp == 1)).head? with
         | some c => (match showCoef c with | .ok s => .ok [("scale", s)] | .error e => .error e)
         | none => .ok [] : LoadM (List (String × String))) with
@@ -208,7 +215,7 @@ def timeScaleOffset (ne : NumEnc) : LoadM (List (String × String)) :=
           | none => .ok [] : LoadM (List (String × String))) with
       | .error e => .error e
       | .ok off => .ok (sc ++ off)
-  | some _ => .error .value
+  | some _ => .ok []
   | none => .ok []
 
 def timeReference (u : Option String) (t : LPType) : List XmlNode :=
